@@ -2133,6 +2133,16 @@ def dispatch_on_constant(fn: ast.AST) -> int:
 
 
 # ------------------------------------------------------------------------------------------------ L7 / L8 / S14 / S15
+def needs_statements(e: ast.AST) -> bool:
+    """Does the expression call a private helper (a leading underscore in the called name) -- something that may only be expressible as statements?"""
+    for x in ast.walk(e):
+        if isinstance(x, ast.Call):
+            nm = x.func.id if isinstance(x.func, ast.Name) else (x.func.attr if isinstance(x.func, ast.Attribute) else "")
+            if nm.startswith("_") and not nm.startswith("__"):
+                return True
+    return False
+
+
 def accumulate_to_join(fn: ast.AST) -> int:
     """L7: `acc = "" ; for x in xs: acc = acc + E` (or `acc += E`)  ->  `acc = "".join(E for x in xs)`."""
     if not isinstance(fn, (ast.FunctionDef, ast.AsyncFunctionDef)):
@@ -2151,6 +2161,31 @@ def accumulate_to_join(fn: ast.AST) -> int:
                     setattr(st, fld, block(getattr(st, fld)))
             for h in getattr(st, "handlers", []) or []:
                 h.body = block(h.body)
+            if isinstance(st, ast.AugAssign) and isinstance(st.op, ast.Add) and isinstance(st.target, ast.Name) and isinstance(st.value, ast.IfExp) \
+                    and not any(isinstance(x, (ast.Call, ast.NamedExpr)) for x in ast.walk(st.value.test)) and needs_statements(st.value):
+                # acc += (A if c else B)   ->   if c: acc += A / else: acc += B
+                a, b = copy.copy(st), copy.copy(st)
+                a.value, b.value = st.value.body, st.value.orelse
+                new = ast.copy_location(ast.If(test=st.value.test, body=block([a]), orelse=block([b])), st)
+                ast.fix_missing_locations(new)
+                out.append(new)
+                count[0] += 1
+                continue
+            if isinstance(st, ast.AugAssign) and isinstance(st.op, ast.Add) and isinstance(st.target, ast.Name) and isinstance(st.value, ast.Call) \
+                    and isinstance(st.value.func, ast.Attribute) and st.value.func.attr == "join" and isinstance(st.value.func.value, ast.Constant) and st.value.func.value.value == "" \
+                    and len(st.value.args) == 1 and not st.value.keywords and isinstance(st.value.args[0], (ast.GeneratorExp, ast.ListComp)) and len(st.value.args[0].generators) == 1 \
+                    and needs_statements(st.value.args[0].elt) and not any(isinstance(x, ast.Name) and x.id == st.target.id for x in ast.walk(st.value)):
+                # acc += "".join(f(x) for x in xs)   ->   for x in xs: acc += f(x)      (f is a helper that has to be spliced in as statements)
+                g = st.value.args[0].generators[0]
+                body = [ast.copy_location(ast.AugAssign(target=st.target, op=ast.Add(), value=st.value.args[0].elt), st)]
+                if g.ifs:
+                    cond = g.ifs[0] if len(g.ifs) == 1 else ast.BoolOp(op=ast.And(), values=list(g.ifs))
+                    body = [ast.copy_location(ast.If(test=cond, body=body, orelse=[]), st)]
+                new = ast.copy_location(ast.For(target=g.target, iter=g.iter, body=body, orelse=[], type_comment=None), st)
+                ast.fix_missing_locations(new)
+                out.append(new)
+                count[0] += 1
+                continue
             if isinstance(st, ast.For) and not st.orelse and len(st.body) == 1 and isinstance(st.target, ast.Name) and out and plain_assign(out[-1]) \
                     and isinstance(out[-1].value, ast.Constant) and out[-1].value.value == "":
                 acc = plain_assign(out[-1])
